@@ -137,11 +137,12 @@ def coq_opt(o):
     return "None" if o is None else "(Some %d)" % o
 
 
-def coq_lay(l, explicit=False):
+def coq_lay(l, explicit=False, reprc=False):
     e = "true" if explicit else "false"
+    c = "true" if reprc else "false"
     if l is None:
-        return "(Lay 0 0 [] %s)" % e
-    return "(Lay %d %d [%s] %s)" % (l["size"], l["align"], ";".join(str(o) for o in l["offs"]), e)
+        return "(Lay' 0 0 [] %s %s)" % (e, c)
+    return "(Lay' %d %d [%s] %s %s)" % (l["size"], l["align"], ";".join(str(o) for o in l["offs"]), e, c)
 
 
 def coq_fdef(f):
@@ -177,8 +178,8 @@ def coq_ty(t):
     if k == "enum":
         w = t.get("repr_bytes")
         voffs = t.get("voffs") or [[] for _ in t["variants"]]
-        vs = ["(VD %d %s [%s])" % (v.get("from", 0), coq_opt(v.get("to")), ";".join(coq_fdef(f) for f in v["fields"])) for v in t["variants"]]
-        return "(TEnum %s %s [%s] [%s])" % (coq_opt(w), coq_lay(t.get("lay"), any(v.get("discr") is not None for v in t["variants"])),
+        vs = ["(VD' [%s] %d %s [%s])" % (";".join(str(b) for b in v["name"].encode()), v.get("from", 0), coq_opt(v.get("to")), ";".join(coq_fdef(f) for f in v["fields"])) for v in t["variants"]]
+        return "(TEnum %s %s [%s] [%s])" % (coq_opt(w), coq_lay(t.get("lay"), any(v.get("discr") is not None for v in t["variants"]), bool(t.get("reprc"))),
                                             ";".join("[" + ";".join(str(o) for o in vo) + "]" for vo in voffs), ";".join(vs))
     raise ValueError(k)
 
